@@ -1,10 +1,16 @@
 #!/usr/bin/env python3
 import json, sys
 pid = sys.argv[1]
+# optional: first number and count of the changes to produce (round 2: 3 3 -> changes 3,4,5)
+first = int(sys.argv[2]) if len(sys.argv) > 2 else 1
+count = int(sys.argv[3]) if len(sys.argv) > 3 else 2
+nums = ','.join(str(first + i) for i in range(count))
+word = {2: 'TWO', 3: 'THREE', 4: 'FOUR'}[count]
 for l in open('/verif/properties.jsonl'):
     p = json.loads(l)
     if p['id'] == pid:
         break
+extra = "" if first == 1 else "3b. Variety: make at least one of the changes depend on TWO cooperating sites (each edit looks harmless alone), and at least one depend on a deep multi-step sequence, a rare boundary value, a particular fault point or a particular interleaving. Avoid the most obvious single-line inversions (flipping one comparison in the most central function): pick less-travelled code paths that still matter to the property.\n  "
 print(f"""You are helping evaluate a verification framework for the Go library emersion/go-imap (v2). Your job: write realistic BUGGY CHANGES to the library that break ONE stated property, so that we can later see whether independent checks catch them.
 
 Work ONLY inside your private scratch git worktree of the library: /tmp/seed/{pid}/wt  (a `git worktree` of the library at its current HEAD). Put deliverables under /tmp/seed/{pid}/out/. Do NOT read or write anything under /verif or /repo (other than through your worktree), and do not look for existing verification harnesses: your changes must be independent of them.
@@ -19,15 +25,15 @@ Quantified over: {p['quantifier']['text']}
 Code it is anchored in: {', '.join(p['anchors']['files'])}
 
 TASK
-Produce TWO different, independent changes (different root causes, ideally in different functions/files) to non-test source files of the library, each of which:
+Produce {word} different, independent changes (different root causes, ideally in different functions/files) to non-test source files of the library, each of which:
   1. breaks the property above (a real semantic violation of the statement, not just a style change);
   2. still compiles (`go build ./...`) and still passes the whole existing test suite (`go test -count=1 ./...`) -- verify this;
   3. needs something SPECIFIC to manifest -- e.g. an unusual input or boundary value, a particular multi-step sequence of operations, a particular interleaving, a fault at a particular point, or two cooperating sites that each look fine alone. Do NOT make changes that ordinary use would expose immediately (e.g. breaking every call). Think of the kind of subtle regression a real refactoring or "optimisation" could introduce. Keep each change small (a few lines) and plausible-looking.
-  4. comes with a demonstration: a Go test file (package-external `_test` package or internal, your choice) that FAILS with the change applied and PASSES on the unchanged worktree. State in which directory of the library the test file must be placed and the exact `go test -run ...` command. Verify both directions yourself.
+  {extra}4. comes with a demonstration: a Go test file (package-external `_test` package or internal, your choice) that FAILS with the change applied and PASSES on the unchanged worktree. State in which directory of the library the test file must be placed and the exact `go test -run ...` command. Verify both directions yourself.
 
-DELIVERABLES for change n in {{1,2}}, in /tmp/seed/{pid}/out/<n>/ :
+DELIVERABLES for change n in {{{nums}}}, in /tmp/seed/{pid}/out/<n>/ :
   - patch.diff : output of `git diff` in the worktree with only that change applied (must apply with `git apply` on a clean checkout of HEAD)
   - the demonstration test file (e.g. demo_test.go) 
   - meta.json : {{"property": "{pid}", "summary": "...what was changed...", "breaks": "...which part of the statement and how...", "needs_to_manifest": "...the specific input/sequence/schedule needed...", "demo_dir": "<library subdir where the demo file goes>", "demo_cmd": "<go test command>", "verified": "what you ran and observed (with and without the change)"}}
 
-When finished, restore the worktree to a clean state (`git -C /tmp/seed/{pid}/wt checkout -- . && git -C /tmp/seed/{pid}/wt clean -fd`) so that only the out/ directory holds your results. Your final message: a short summary of the two changes (or why you could only produce one).""")
+When finished, restore the worktree to a clean state (`git -C /tmp/seed/{pid}/wt checkout -- . && git -C /tmp/seed/{pid}/wt clean -fd`) so that only the out/ directory holds your results. Your final message: a short summary of the changes (or why you could produce fewer).""")
